@@ -171,6 +171,20 @@ CLAIMED["C17"] = dict(
     technique="Lean 4 proof (counter invariants over histories; runner protocol invariants) + real-scheduler mirroring and trace validation",
 )
 
+CLAIMED["C05"] = dict(
+    category="proof",
+    text="For every state reachable by any event history (any workers 1..n-2, any completion order, accept/reject, outcomes "
+         "in C02's staircase family): the idle block is non-negative with positive permanent (<-> a perfect matching "
+         "exists: matchable_invariant), hence the pick probabilities are >= 0 and sum to the number of idle slots > 0 "
+         "(pick_defined, job_can_be_drawn, idle_worker_gets_job, start_can_draw); sort_trajstate terminates within n^2 "
+         "iterations without either .index failure for ANY number of workers (sort_terminates, measure argument + "
+         "Frobenius-Koenig), leaves a non-zero diagonal and only permutes idle rows; live paths distinct; path numbers "
+         "fresh and never reused; the restart image written after a step loads (restart_file_loads). Tie: real "
+         "REPEX_state histories incl. restart chains, watchdog for hangs, real reload of written restart files.",
+    design_ref="DESIGN.md §6 C05",
+    technique="Lean 4 proof (permanent/matching invariant, termination measure) + state-for-state correspondence",
+)
+
 NOT_YET = "check not built yet at this commit (work in progress; see DESIGN.md §8 work order)"
 
 
